@@ -257,6 +257,45 @@ fn run_vm(src: &str, times: usize) -> Result<Vec<f64>, String> {
     }
     Ok(out)
 }
+/// the same program on the real WASM back end (wasmgen + wasmtime runtime), mono output
+fn run_wasm(src: &str, times: usize) -> Result<Vec<f64>, String> {
+    use mimium_lang::{Config, ExecContext};
+    use mimium_lang::compiler::wasmgen::WasmGenerator;
+    use mimium_lang::runtime::wasm::WasmRuntime;
+    let mut ctx = ExecContext::new([].into_iter(), None, Config::default());
+    ctx.prepare_compiler();
+    let ext_fns = ctx.get_extfun_types();
+    let mir = ctx.get_compiler().ok_or("no compiler")?.emit_mir(src)
+        .map_err(|e| e.iter().map(|x| x.get_message()).collect::<Vec<_>>().join("; "))?;
+    let mut wasmgen = WasmGenerator::new(std::sync::Arc::new(mir), &ext_fns);
+    let bytes = wasmgen.generate().map_err(|e| format!("wasmgen: {e}"))?;
+    let mut rt = WasmRuntime::new(&ext_fns, None).map_err(|e| format!("wasm runtime: {e}"))?;
+    let mut module = rt.load_module(&bytes).map_err(|e| format!("wasm load: {e}"))?;
+    let _ = module.call_function("main", &[]);
+    let mut out = vec![];
+    for _ in 0..times {
+        let r = module.call_function("dsp", &[]).map_err(|e| format!("dsp: {e}"))?;
+        out.push(r.first().map(|v| f64::from_bits(*v)).unwrap_or(f64::NAN));
+    }
+    Ok(out)
+}
+/// programs whose WASM code needs many state exchange buffers (GetState / ReturnFeed) next to statically allocated
+/// temporaries: `n` one-word counters in front of a function with a tuple-valued `self` (finding F14)
+fn exchange_programs() -> Vec<(String, String)> {
+    let mut v = vec![];
+    for n in [0usize, 31, 32, 33, 40, 70] {
+        let mut s = String::new();
+        for i in 0..n { s += &format!("fn c{i}(){{ self + 1.0 }}\n"); }
+        let pre = s.clone();
+        v.push((pre.clone() + "fn acc()->(float,float){ let u = (7.0, 8.0)\n let (a,b) = self\n let (c,d) = u\n (a + c, b + d) }\nfn dsp(){ let (p,q) = acc()\n p*1000.0 + q }\n",
+                format!("{n} counters, then tuple-valued self next to a tuple temporary")));
+        if n > 0 {
+            v.push((pre + &format!("fn dsp(){{ let t = (10.0, 20.0)\n let y = c{}()\n let (a,b) = t\n a + b*100.0 + y*10000.0 }}\n", n - 1),
+                    format!("{n} counters, the last one called while a tuple temporary is live")));
+        }
+    }
+    v
+}
 fn branch_state_programs() -> Vec<(String, Vec<f64>, String)> {
     vec![
         ("fn cnt(){ self + 1.0 }\nfn sel(c){\n  if (c) { cnt() } else { cnt()*10.0 }\n}\nfn dsp(){\n  let a = sel(0.0)\n  let b = cnt()\n  a + b*1000.0\n}\n".to_string(),
@@ -650,6 +689,23 @@ fn main() {
             }
         }
         println!("HOLDS");
+        return;
+    }
+    if args.get(1).map(|s| s.as_str()) == Some("wasm-exchange") {
+        // C05, last sentence (state words identical on the VM and the WASM runtime) seen through the outputs: the WASM code
+        // exchanges state words with the host through buffers in linear memory; they must not overlap anything else
+        let only: Option<usize> = args.get(2).and_then(|s| s.parse().ok());
+        let progs = exchange_programs();
+        for (i, (src, desc)) in progs.iter().enumerate() {
+            if let Some(o) = only { if o != i { continue; } }
+            let vm = run_vm(src, 4);
+            let wasm = run_wasm(src, 4);
+            match (vm, wasm) {
+                (Ok(a), Ok(b)) if a == b => {}
+                (a, b) => { println!("FAILS C05[state identical on VM and WASM] index={i} `{desc}`: vm={a:?} wasm={b:?}"); return; }
+            }
+        }
+        println!("HOLDS tried={}", progs.len());
         return;
     }
     if args.get(1).map(|s| s.as_str()) == Some("run-src") {
